@@ -114,6 +114,17 @@ fn binary_trace(tr: &mut Trace, r: &mut Rng, rounds: usize) {
                 b2w_events(tr, off, &all[off..off + n]);
             }
         }
+        // page-sized and larger slices at every offset (bulk-copy paths start at some size)
+        let bigfill: Vec<u8> = (0..8300).map(|i| ((i * 7 + 3) % 251) as u8 ^ (r.below(2) as u8)).collect();
+        let bigbuf = Aligned::of(&bigfill, 0);
+        let ball = bigbuf.all();
+        for off in 0..8usize {
+            for &n in &[4088usize, 4096, 4104, 8192] {
+                if off + n <= ball.len() {
+                    b2w_events(tr, off, &ball[off..off + n]);
+                }
+            }
+        }
     }
 }
 
@@ -238,7 +249,15 @@ fn json_trace(trb: &mut Trace, trj: &mut Trace, tri: &mut Trace, r: &mut Rng, do
     const FAMS: [&str; 8] = ["small", "medium", "deep", "escapes", "whitespace", "dupkeys", "empties", "longstr"];
     for i in 0..docs {
         let fam = if i == docs - 1 && large > 0 { "large" } else { FAMS[i % FAMS.len()] };
-        let Some(doc) = gen_doc(r, fam, large) else { continue };
+        let Some(mut doc) = gen_doc(r, fam, large) else { continue };
+        if i % 3 == 1 {
+            // text length an exact multiple of 64 (trailing whitespace keeps the document and its
+            // spans): the last IB word is then completely used -- a boundary for anything that
+            // masks "bits past the length" when an index is rebuilt from parts
+            while doc.text.len() % 64 != 0 {
+                doc.text.push(b' ');
+            }
+        }
         let idx = JsonIndex::build(&doc.text);
         let seed_q = r.next_u64();
         json_group(trj, tri, &doc, i, "original", &idx, seed_q);
